@@ -505,6 +505,20 @@ impl LogReader {
     }
 }
 
+/// Crate-only methods
+impl LogReader {
+    /**
+    Returns true if every byte of the file has been consumed by complete records.
+
+    This is false after reaching the end of a file whose tail holds an incomplete record e.g. a
+    write that was torn by a crash. Appending to such a file would leave the new records behind
+    bytes that a reader cannot get past, so such a file must not be reused for appends.
+    */
+    pub(crate) fn is_at_clean_end(&self) -> LogIOResult<bool> {
+        Ok(self.current_cursor_position as u64 == self.len()?)
+    }
+}
+
 /// Private methods.
 impl LogReader {
     /**
